@@ -1,0 +1,13 @@
+//go:build verif
+
+// Contracts for gocv (see /verif/DESIGN.md). Comment-only file: takes no part in any build.
+
+package account
+
+// ---- C15: balances never go negative or overflow --------------------------------------------------
+// type invariant of a stored balance: 0 <= balance <= MaxTokenBalance
+//@ func safeAdd [C15]
+//@   opt overflow=wrap
+//@   requires 0 <= balance && balance <= types.MaxTokenBalance
+//@   ensures result1 == nil ==> result0 == balance + amount && 0 <= result0 && result0 <= types.MaxTokenBalance
+//@   ensures result1 != nil ==> result0 == balance
